@@ -252,6 +252,8 @@ impl Compactor {
                         .storage
                         .txn_mgr
                         .try_lock_for_compaction(table.table_id())
+                        // the table may have been dropped since the pass listed it
+                        && self.storage.tables.read().contains_key(&table.table_ref_id)
                         && let Err(err) = self.compact_table(&pin_version.snapshot, table).await
                     {
                         warn!("failed to compact: {:?}", err);
